@@ -722,6 +722,11 @@ theorem run_terminates_time_and_tank_conditions (hR : 0 < scfg.rule)
 /-- the clamp fix 7d8c4ce1 put into the presolve pass: `min(max(b, 0), max(int(cur − prev) − 1, 0))` -/
 def clampBack (cur prev b : Int) : Int := min (max b 0) (max (cur - prev - 1) 0)
 
+/-- `_setup_sim_options` takes `_hydraulic_timestep` / `_report_timestep` from `wn.options.time` unconditionally on every call
+(no guard reading simulator state, no run-once cache): together with C04's `effective_steps_restart` (the adjustment is a function of
+the options only) the steps of every `run_sim` call -- `cfg.hyd`, `cfg.report` of this model -- are those of the CURRENT options -/
+theorem generated_steps_depend_on_options_only : Gen.stepsFromOptionsEveryCall = true := by decide
+
 /-- the clamp read off the current source (WHICH quantities bound the backtrack) is the reference one ... -/
 theorem generated_clamp_is_ref : Gen.clampShape = refClampShape := by decide
 
